@@ -131,7 +131,7 @@ func runReplays(cases []*ReplayCase, verbose bool) error {
 		tmo := "600s"
 		for _, c := range cs {
 			if c.Kind == "deadlock" {
-				tmo = "90s" // a reproduced deadlock shows as the test timing out
+				tmo = "150s" // a reproduced deadlock shows as the test timing out
 			}
 		}
 		args := []string{"test", "-vet=off", "-count=1", "-timeout", tmo, "-overlay", ovPath, "-run", "^TestVerifReplay$", "-v"}
@@ -165,6 +165,14 @@ func runReplays(cases []*ReplayCase, verbose bool) error {
 			r, ok := found[c.ID]
 			if !ok {
 				r = "norun: " + lastLines(txt, 6)
+			}
+			if c.Kind == "panic" && !ok {
+				// a panic in a goroutine of the code under test kills the test binary: look for it in the output
+				for _, frag := range []string{"send on closed channel", "close of closed channel", "nil pointer dereference", "index out of range", "integer divide by zero"} {
+					if strings.Contains(c.Msg, frag) && strings.Contains(txt, "panic: "+frag) || (strings.Contains(c.Msg, frag) && strings.Contains(txt, "panic: runtime error: "+frag)) {
+						r = "panic: the replay crashed the process with: " + frag
+					}
+				}
 			}
 			if c.Kind == "deadlock" && !ok && (strings.Contains(txt, "test timed out") || strings.Contains(txt, "all goroutines are asleep")) {
 				r = "DEADLOCK reproduced natively: the replay blocked until the test timed out"
